@@ -110,3 +110,65 @@ Theorem C13_division_covers_exactly :
     (~ (rx == lx /\ ry == ly)%Q ->
      forall x y, on_seg lx ly ix iy x y -> on_seg ix iy rx ry x y -> (x == ix /\ y == iy)%Q).
 Proof. exact divide_segment_cover. Qed.
+
+(** ** exact instance, EVERY pair of operands with finite coordinates (they may share boundary
+    pieces); the edges are those [fill_queue] walks ([ops_edges]).
+    Clauses "left event first", "non-zero length", "every sub-segment lies on ONE edge of its
+    own operand" ([pair_ok2], an invariant of the whole sweep including the overlap arm of
+    [possible_intersection]) and the coverage clause: every point of every non-degenerate input
+    edge lies on a linked pair of that operand that lies on this edge. *)
+From GB Require Import OnEdge OnEdgeFull Coverage ExactSweep.
+Theorem C13_subsegments_lie_on_their_edges :
+  forall (A B : list (FillQueue.polygon NQ)),
+  (forall P, In P A -> finite_poly P) -> (forall P, In P B -> finite_poly P) ->
+  forall (cfg : config) (fuel : nat) (op : operation) (st : store NQ) (sorted : list eid) (n : nat),
+  subdivide cfg fuel (fill_queue A B op) op = Ok (st, sorted, n) ->
+  forall i, In i sorted -> exists o, e_other (getE st i) = Some o /\ pair_ok2 (ops_edges A B) st i o.
+Proof. exact exact_subsegments. Qed.
+
+Theorem C13_pair_ok2_unfold :
+  forall (edges : list edge) (st : store NQ) (i o : eid), pair_ok2 edges st i o <->
+  exists px py qx qy ax ay bx by_,
+    e_point (getE st i) = fpt px py /\ e_point (getE st o) = fpt qx qy /\
+    ~ qeqp px py qx qy /\
+    In (ax, ay, (bx, by_), e_is_subject (getE st i)) edges /\
+    on_seg ax ay bx by_ px py /\ on_seg ax ay bx by_ qx qy /\
+    e_left (getE st o) = negb (e_left (getE st i)) /\
+    (e_left (getE st i) = true -> lexlt px py qx qy).
+Proof. exact (fun edges st i o => conj (fun H => H) (fun H => H)). Qed.
+
+Theorem C13_subsegments_cover_their_edges :
+  forall (A B : list (FillQueue.polygon NQ)),
+  (forall P, In P A -> finite_poly P) -> (forall P, In P B -> finite_poly P) ->
+  forall (cfg : config) (fuel : nat) (op : operation) (st : store NQ) (sorted : list eid) (n : nat),
+  subdivide cfg fuel (fill_queue A B op) op = Ok (st, sorted, n) ->
+  forall ax ay bx by_ sj, In (ax, ay, (bx, by_), sj) (ops_edges A B) -> ~ qeqp ax ay bx by_ ->
+  forall x y, on_seg ax ay bx by_ x y ->
+  exists i o lx ly rx ry, mapped NQ st i /\ e_other (getE st i) = Some o /\ e_is_subject (getE st i) = sj /\
+    e_point (getE st i) = fpt lx ly /\ e_point (getE st o) = fpt rx ry /\
+    on_seg ax ay bx by_ lx ly /\ on_seg ax ay bx by_ rx ry /\ on_seg lx ly rx ry x y.
+Proof.
+  exact (fun A B HA HB cfg fuel op st sorted n H ax ay bx by_ sj Hin Hnd x y Hon =>
+           exact_coverage A B HA HB cfg fuel op st sorted n H ax ay bx by_ sj (conj Hin Hnd) x y Hon).
+Qed.
+
+Theorem C13_exact_example :
+  exact_example_check = true /\
+  (forall P, In P Cert.F2_A -> finite_poly P) /\ (forall P, In P Cert.F2_B -> finite_poly P).
+Proof. exact (conj exact_example exact_example_finite). Qed.
+
+(** every instance, every input: no event is returned twice; and a sweep that runs to
+    completion returns every event that exists *)
+From GB Require Import SweepClosure.
+Theorem C13_no_event_returned_twice :
+  forall (N : Num) (cfg : config) (fuel : nat) (A B : list (FillQueue.polygon N)) (op : operation)
+         (st : store N) (sorted : list eid) (n : nat),
+  subdivide cfg fuel (fill_queue A B op) op = Ok (st, sorted, n) -> NoDup sorted.
+Proof. exact subdivide_nodup. Qed.
+Theorem C13_complete_sweep_returns_every_event :
+  forall (N : Num) (cfg : config) (fuel : nat) (A B : list (FillQueue.polygon N)) (op : operation)
+         (st : store N) (sorted : list eid) (n : nat),
+  complete_sweep cfg op ->
+  subdivide cfg fuel (fill_queue A B op) op = Ok (st, sorted, n) ->
+  forall i, mapped N st i -> In i sorted.
+Proof. exact subdivide_complete. Qed.
